@@ -652,6 +652,15 @@ fn run_case(case: &str) -> (String, String, String) {
                 wd.env.jobs = std::mem::take(&mut l);
                 let ran = wd.run_builtin(&mut |_| (), |env| Box::pin(yash_builtin::bg::main(env, fields)));
                 l = std::mem::take(&mut wd.env.jobs);
+                // `bg` removes nothing and records no state change (only `expected_state`, `$!`, current job)
+                for (i, pid, _, st, _) in &snap {
+                    if !l.get(*i).map(|j| j.pid.0 == *pid && show_state(&j.state) == *st).unwrap_or(false) {
+                        doc = Some(format!("bg-removal:{i}"));
+                    }
+                }
+                if l.len() != snap.len() {
+                    doc = Some("bg-new-job".into());
+                }
                 if ran.status == 0 && !ran.stuck {
                     // "The (last) resumed job's process ID is set to the `!` special parameter."
                     let operands: Vec<&str> = args.iter().copied().filter(|a| *a != "--").collect();
@@ -681,6 +690,7 @@ fn run_case(case: &str) -> (String, String, String) {
                 let (m, tty, inter) = (flags & 1 != 0, flags & 2 != 0, flags & 4 != 0);
                 let wd = world.get_or_insert_with(World::new);
                 let (cur0, prev0, snap0) = (l.current_job(), l.previous_job(), snapshot(&l));
+                let before_list = l.clone();
                 // the job the built-in is going to resume, found with the real job-ID code; only
                 // that job gets a process, a child of the shell in the state the table records
                 let target: Option<usize> = match args.iter().copied().filter(|a| *a != "--").collect::<Vec<_>>().as_slice() {
@@ -747,6 +757,24 @@ fn run_case(case: &str) -> (String, String, String) {
                             }
                         }
                         _ => doc = Some("fg-designation".into()),
+                    }
+                }
+                // `fg` may touch only the job it resumes, and may remove it only if it is no longer alive
+                // ("If the resumed job finishes, it is removed from the job list"; a job that finished in
+                // the background stays in the list until `jobs` or `wait` retrieves its status)
+                if !ran.stuck && doc.is_none() {
+                    let touched = if ran.stderr.is_empty() { target } else { None };
+                    for (i, j) in before_list.iter() {
+                        if Some(i) == touched {
+                            if l.get(i).is_none() && final_state.map(|f| f.is_alive()).unwrap_or(true) {
+                                doc = Some("fg-removed-live-job".into());
+                            }
+                        } else if l.get(i) != Some(j) {
+                            doc = Some(format!("fg-others:{i}"));
+                        }
+                    }
+                    if l.iter().any(|(i, _)| before_list.get(i).is_none()) {
+                        doc = Some("fg-new-job".into());
                     }
                 }
                 show_ran(&ran)
@@ -826,9 +854,20 @@ fn run_case(case: &str) -> (String, String, String) {
                     return ("bad-case".into(), "-".into(), String::new());
                 };
                 let wd = world.get_or_insert_with(World::new);
+                let before_list = l.clone();
                 wd.env.jobs = std::mem::take(&mut l);
                 let ran = wd.run_builtin(&mut |_| (), |env| Box::pin(yash_builtin::wait::main(env, fields)));
                 l = std::mem::take(&mut wd.env.jobs);
+                // `wait` removes only jobs that have finished or are not owned; everything else is untouched
+                for (i, j) in before_list.iter() {
+                    let gone_ok = l.get(i).is_none() && (!j.state.is_alive() || !j.is_owned);
+                    if l.get(i) != Some(j) && !gone_ok {
+                        doc = Some(format!("wait-removal:{i}"));
+                    }
+                }
+                if l.iter().any(|(i, _)| before_list.get(i).is_none()) {
+                    doc = Some("wait-new-job".into());
+                }
                 show_ran(&ran)
             }
             ["wres", a] => {
